@@ -40,7 +40,7 @@ ASSUMPTIONS = ["valid arguments: indices within range, one label array per field
                "cells are integers (int8 0..2 for genotype matrices, exact in float64 otherwise); label codes are non-negative"]
 PROPS = "Props/C03.v"
 IMPORTS = "From PV Require Import Lib.Common Model.C03_LMat."
-SHARD = 40
+SHARD = 52
 SHARD_TIMEOUT = 600
 SEARCH_MAX = 1500
 
@@ -996,7 +996,7 @@ class _Gen:
         if not kinds: return None
         kind = r.choice(kinds)
         k = r.choice(self.allowed(S, kind))
-        valid = r.random() > 0.07
+        valid = r.random() > 0.035
         intended = valid
         form, gax = self.form(kind)
         op = {"k": k, "ax": kind, "form": form, "gax": gax}
@@ -1005,6 +1005,7 @@ class _Gen:
         if not valid and r.random() < 0.3:
             nd = len(C["ax"]); op["form"] = "g"
             wrong = [a for a in range(-nd - 1, nd + 1) if not (-nd <= a < nd) or (a % nd) not in kind_axes(C, kind)]
+            if C.get("bv"): wrong = [-nd - 1, nd]            # trait-axis operations of breeding-value matrices belong to C15 (scaling)
             op["gax"] = r.choice(wrong); op["badaxis"] = True; valid = True           # arguments below are valid, the axis is not
         if k == "select":
             op["idx"] = [r.randrange(-n, n) for _ in range(r.choice([1, 1, 2, 3, n, n + 1]))] if valid else [0, n]
